@@ -490,7 +490,18 @@ def stream_live_spec(prop, tier):
             {"spec": "FairSpec", "properties": ["EventuallyTerminal"], "deadlock": True})
 
 
-STREAM_WITNESS = {"nodrop": ["W_Parked", "W_CleanEnd", "W_Spurious"], "cdrop": ["W_WriteFails", "W_ErrEnd"]}
+STREAM_WITNESS = {"nodrop": ["W_Parked", "W_CleanEnd", "W_Spurious"], "cdrop": ["W_WriteFails", "W_ErrEnd"],
+                  "gzflush": ["W_PlainFlushComplete", "W_OnePass", "W_NoShortWrite"]}
+
+
+def gzflush_mc(tier):
+    """The buffering layers between BodyWriter (gzip) and the chunk writer: flush protocol (GzFlush.tla)."""
+    if tier == "quick":
+        c = {"Cap": 4, "LookMax": 3, "InMax": 6, "MaxAcc": 12, "MaxOps": 5, "WriteSizes": "{0, 1, 2, 5, 9}"}
+    else:
+        c = {"Cap": 5, "LookMax": 4, "InMax": 8, "MaxAcc": 24, "MaxOps": 8, "WriteSizes": "{0, 1, 2, 3, 5, 9, 14}"}
+    return ("GzFlushMC", c, ["FlushInv", "FinishInv", "ConservedInv", "LemmaInv", "PassesInv", "Bounded"],
+            ["GzFlushMC.Write", "GzFlushMC.Flush", "GzFlushMC.DropW"])
 
 
 def gen_scheds(prop, tier, seed, d):
@@ -564,7 +575,9 @@ stream_plan.meta = {}
 
 def stream_mc(prop):
     def f(tier):
-        if prop in ("C09", "C17"):
+        if prop == "C09":
+            return [("gzflush", gzflush_mc(tier))]
+        if prop == "C17":
             return []
         out = [("nodrop", stream_mc_spec(prop, tier, False))]
         if prop == "C10":
@@ -637,5 +650,11 @@ PLANS["C14"]["engines"].append({"engine": "file", "trace_module": "FileTrace",
                                 "cases": lambda tier, seed: filegen.file_echo_cases(tier, seed),
                                 "constants": {"Strict": "TRUE", "ReadSizeReal": "65536"},
                                 "nontrivial": lambda c: len(c.get("echo", [])) > 0})
+
+# C02 also over a real file whose reads come back short (content compared with an independent reading)
+PLANS["C02"]["engines"].append({"engine": "file", "trace_module": "FileTrace",
+                                "cases": lambda tier, seed: filegen.odd_cases(tier, seed),
+                                "constants": {"Strict": "TRUE", "ReadSizeReal": "65536"},
+                                "nontrivial": lambda c: True})
 
 PLANS["C16"]["tlaps"] = ["AcceptEncodingProofs"]
